@@ -287,6 +287,52 @@ CLAIMS = {
                      '+ def-use key-schedule table + finite evaluation of '
                      'padding residues + CFG guard-dominance (ast)',
     },
+    'C07': {
+        'text': 'Decides the ordering structure of channel data: the seven '
+                'queues (send/receive buffers, request queues and waiters, '
+                'deferred packets, global request queue and waiters) are '
+                'FIFOs by an operation whitelist, and the data buffers are '
+                'indexed only at their head (no merging into the tail); '
+                'CHANNEL_EOF / CHANNEL_CLOSE have a single sender each and '
+                'are dominated by the post-loop "send buffer empty" test; '
+                'eof_received() and the deferred cleanup are dominated by '
+                '"receive buffer empty"; write() refuses data unless sending '
+                'is open; text goes through the per-channel incremental '
+                'codecs with the final flush only at EOF/close; channel '
+                'messages are dispatched by the recipient-channel field; in '
+                'the flush the bytes sent and the bytes removed are the same '
+                'slice of the head element and the data type sent is the '
+                'element\'s.',
+        'note': TB + 'not decided: byte-for-byte equality end to end, '
+                'multi-channel interleavings, split multi-byte characters '
+                'beyond the use of an incremental codec.',
+        'technique': 'field-protocol (FIFO) whitelist + CFG guard-dominance '
+                     '+ who-may-send + def-use slice agreement (ast)',
+    },
+    'C09': {
+        'text': 'Decides the cleanup structure: all seven create_future() '
+                'sites belong to a registry in a frozen table; each registry '
+                '(channel open / request waiters, global request waiters, '
+                'connect waiter, SFTP request table, stream readers and '
+                'drainers) is completely resolved and emptied by its owner\'s '
+                'cleanup, the close events are set on every cleanup path, '
+                'every handler of the SFTP packet loop runs the cleanup; '
+                'connection cleanup reaches channels, listeners, auth, '
+                'timers, tunnel; SSHChannel._flush_recv_buf is evaluated as '
+                'a complete table (270 states): a pending close with nothing '
+                'buffered always schedules the cleanup, whatever the reading '
+                'state; connection_lost is delivered only while referenced '
+                'and the reference is cleared afterwards (also when the '
+                'callback raises); _force_close is single-shot and the only '
+                'scheduler; CHANNEL_CLOSE is sent at most once; cleanup is '
+                'scheduled only with the receive side closed; the six '
+                'inbound handlers test the receive state first.',
+        'note': TB + 'not decided: that no waiter hangs under every '
+                'interleaving; callback-order legality beyond once-only.',
+        'technique': 'registry/drain table + must-pass-through + finite '
+                     'abstract evaluation (decision table) + who-may-call '
+                     '(ast)',
+    },
 }
 
 PENDING = 'check not built yet in this session (planned, see DESIGN.md section 5)'
